@@ -172,7 +172,7 @@ digits_s = st.one_of(st.integers(0, 20).map(str), st.integers(0, 999999).map(str
 exp_s = st.one_of(st.sampled_from([0, 0, 0, -1, -1, -2, -3, 1, 2]), st.integers(-8, 8), st.integers(-30, 25))
 triple_s = st.tuples(st.sampled_from([1, 1, -1]), digits_s, exp_s).map(list)
 pos_triple_s = st.tuples(st.sampled_from([1, 1, 1, -1]), st.one_of(st.just('0'), st.integers(1, 5000).map(str)),
-                         st.sampled_from([0, 0, -1, -2, 1])).map(list)
+                         st.sampled_from([0, 0, -1, -2, 1, -9, -12, -20])).map(list)   # radii down to 1e-20 (non-zero: still an arc)
 
 
 def group_s(letter):
